@@ -38,7 +38,7 @@ MANIFEST = {
     "technique": "Lean 4 proof over executable models + differential correspondence model vs implementation + implementation-side "
                  "oracles (round trips, independent SEC/DER reference, hashlib)",
 }
-RULE = ("ops sec_enc/sec_dec/key_from_sec/key_ctor_d/key_ctor_pair/key_addr/wif_enc/wif_dec/der_enc/der_dec/der_int/der_len/der_rdlen/"
+RULE = ("ops sec_enc/sec_dec/sec_dec_c/key_from_sec/key_ctor_d/key_ctor_pair/key_addr/wif_enc/wif_dec/der_enc/der_dec/der_int/der_len/der_rdlen/"
         "der_rmint/der_rmseq; boundary corpus (every SEC blob shape of length 0..70 x prefix 0..7 x x in {0,1,p-1,p,p+1,p+k,2^256-1}; DER "
         "sign-padding and length-form boundaries, single-byte corruptions, truncations, trailing bytes; exponents 0,1,n-1,n,n+1,2^256-1; "
         "WIF on every network) + seeded random; distinct = distinct op line; trivial = SEC blob whose length is neither 33 nor 65")
@@ -119,6 +119,16 @@ def _key_info(key):
     return "%s %s %s" % (_e(key.sec), _e(key.hash160), _eaddr(key.address))
 
 
+def _curve(name: str):
+    if name == "secp256k1":
+        from pycoin.ecdsa.secp256k1 import secp256k1_generator as g
+    elif name == "secp256r1":
+        from pycoin.ecdsa.secp256r1 import secp256r1_generator as g
+    else:
+        from pycoin.ecdsa.bls12_381_g1 import bls12_381_g1 as g
+    return g
+
+
 def eval_op(op: str) -> str:
     from pycoin.encoding.sec import public_pair_to_sec, sec_to_public_pair
     from pycoin.ecdsa.secp256k1 import secp256k1_generator
@@ -130,6 +140,9 @@ def eval_op(op: str) -> str:
             return "ok " + hx(public_pair_to_sec((int(a[1]), int(a[2])), compressed=a[3] == "1"))
         if k == "sec_dec":
             x, y = sec_to_public_pair(unhx(a[2]), secp256k1_generator, strict=a[1] == "1")
+            return "ok %d %d" % (x, y)
+        if k == "sec_dec_c":
+            x, y = sec_to_public_pair(unhx(a[3]), _curve(a[1]), strict=a[2] == "1")
             return "ok %d %d" % (x, y)
         if k == "key_from_sec":
             key = nets()[a[1]].keys.public(unhx(a[2]))
@@ -389,6 +402,33 @@ def oracle(op: str, out: str):
             return "an accepted SEC blob does not re-encode to itself"
         if comp and ref_sec_point(blob) != (x, y):
             return "strict SEC decoding of a compressed blob disagrees with the reference"
+    if k == "sec_dec_c" and out.startswith("ok "):
+        g = _curve(a[1])
+        p_, a_, b_ = g._p, g._a, g._b
+        x, y = int(out.split(" ")[1]), int(out.split(" ")[2])
+        bc = (p_.bit_length() + 7) // 8
+        blob = unhx(a[3])
+        if not (0 <= x < p_ and 0 <= y < p_):
+            return "SEC decoding returned a coordinate outside [0, p) on " + a[1]
+        if x != int.from_bytes(blob[1:1 + bc], "big"):
+            return "SEC decoding returned an x that is not the x field of the blob on " + a[1]
+        if len(blob) == 1 + bc and (y * y - x * x * x - a_ * x - b_) % p_ != 0:
+            return "decompressed point is not on the curve " + a[1]
+        if len(blob) == 1 + bc and a[2] == "1" and (y & 1) != (blob[0] & 1):
+            return "decompressed point has the wrong parity on " + a[1]
+    if k == "sec_dec_c" and out.startswith("err "):
+        g = _curve(a[1])
+        p_, a_, b_ = g._p, g._a, g._b
+        bc = (p_.bit_length() + 7) // 8
+        blob = unhx(a[3])
+        if len(blob) == 1 + bc and blob[0] in (2, 3):
+            x = int.from_bytes(blob[1:], "big")
+            alpha = (x * x * x + a_ * x + b_) % p_
+            if x < p_ and alpha and pow(alpha, (p_ - 1) // 2, p_) == 1:
+                return "a well-formed compressed SEC blob was refused on " + a[1]
+        if len(blob) == 1 + 2 * bc and blob[0] == 4:
+            if int.from_bytes(blob[1:1 + bc], "big") < p_ and int.from_bytes(blob[1 + bc:], "big") < p_:
+                return "a well-formed uncompressed SEC blob was refused on " + a[1]
     if k == "key_from_sec":
         blob = unhx(a[2])
         want = ref_sec_point(blob)
@@ -628,6 +668,24 @@ def gen(ctx, emit):
                 blob = bytes([pfx]) + xx.to_bytes(32, "big")
                 emit("key_from_sec btc " + hx(blob))
                 emit("sec_dec 1 " + hx(blob))
+    # the same decoder with the other shipped generators (32-byte and 48-byte fields)
+    for cname in ("secp256r1", "bls12_381", "secp256k1"):
+        g = _curve(cname)
+        p_ = g._p
+        bc = (p_.bit_length() + 7) // 8
+        cx = [1, 2, 3, 5, p_ - 1, p_, p_ + 1, g[0], rng.randrange(p_), rng.randrange(p_), 2 ** (8 * bc) - 1]
+        for x in cx:
+            xb = (x % 2 ** (8 * bc)).to_bytes(bc, "big")
+            yb = (g[1] if x == g[0] else rng.randrange(p_)).to_bytes(bc, "big")
+            for strict in "10":
+                for pfx in (2, 3, 4, 5, 6, 7, 0):
+                    emit("sec_dec_c %s %s %s" % (cname, strict, hx(bytes([pfx]) + xb)))
+                    emit("sec_dec_c %s %s %s" % (cname, strict, hx(bytes([pfx]) + xb + yb)))
+                emit("sec_dec_c %s %s %s" % (cname, strict, hx(b"\x02" + xb[:-1])))
+                emit("sec_dec_c %s %s %s" % (cname, strict, hx(b"\x04" + xb + yb + b"\x00")))
+                emit("sec_dec_c %s %s %s" % (cname, strict, hx(b"\x04" + (p_ - 1).to_bytes(bc, "big") + p_.to_bytes(bc, "big"))))
+        for L in (0, 1, 32, 33, 34, 48, 49, 50, 64, 65, 66, 96, 97, 98):
+            emit("sec_dec_c %s 1 %s" % (cname, hx(bytes([4 if L > 49 else 2]) * min(L, 1) + bytes(max(0, L - 1)))))
     emit("key_ctor_pair inf")
     emit("key_ctor_pair 0 0")
     emit("sec_enc %d 1 1" % (2 ** 256))
